@@ -42,6 +42,31 @@ int verif_thrown;
 #define VERIF_ALL(n, P, ...) VERIF_CAT(VERIF_ALL_, n)(P, __VA_ARGS__)
 #define VERIF_ANY(n, P, ...) VERIF_CAT(VERIF_ANY_, n)(P, __VA_ARGS__)
 
+/* R3: <cmath> functions that C++ overloads on the argument type.  std::NAME(x) selects the float overload for a
+ * float argument, long double for long double, and the double overload otherwise (integers promote to double);
+ * two-argument functions decide on the usual arithmetic conversion of both arguments.  _Generic reproduces that. */
+#define VERIF_STDM1(name, a) _Generic((a), float: name##f, long double: name##l, default: name)(a)
+#define VERIF_STDM2(name, a, b) _Generic((a) + (b), float: name##f, long double: name##l, default: name)((a), (b))
+#define VERIF_STDM_trunc(a) VERIF_STDM1(trunc, a)
+#define VERIF_STDM_floor(a) VERIF_STDM1(floor, a)
+#define VERIF_STDM_ceil(a) VERIF_STDM1(ceil, a)
+#define VERIF_STDM_round(a) VERIF_STDM1(round, a)
+#define VERIF_STDM_rint(a) VERIF_STDM1(rint, a)
+#define VERIF_STDM_nearbyint(a) VERIF_STDM1(nearbyint, a)
+#define VERIF_STDM_lrint(a) VERIF_STDM1(lrint, a)
+#define VERIF_STDM_lround(a) VERIF_STDM1(lround, a)
+#define VERIF_STDM_llrint(a) VERIF_STDM1(llrint, a)
+#define VERIF_STDM_llround(a) VERIF_STDM1(llround, a)
+#define VERIF_STDM_fabs(a) VERIF_STDM1(fabs, a)
+#define VERIF_STDM_sqrt(a) VERIF_STDM1(sqrt, a)
+#define VERIF_STDM_fmin(a, b) VERIF_STDM2(fmin, a, b)
+#define VERIF_STDM_fmax(a, b) VERIF_STDM2(fmax, a, b)
+#define VERIF_STDM_fmod(a, b) VERIF_STDM2(fmod, a, b)
+#define VERIF_STDM_copysign(a, b) VERIF_STDM2(copysign, a, b)
+/* std::min / std::max / std::clamp on values of one type [alg.min.max], [alg.clamp] */
+#define VERIF_STD_min(a, b) ((b) < (a) ? (b) : (a))
+#define VERIF_STD_max(a, b) ((a) < (b) ? (b) : (a))
+
 uint8_t nondet_u8(void);
 uint16_t nondet_u16(void);
 uint32_t nondet_u32(void);
